@@ -7,7 +7,7 @@
    cut at the next '}', the split of the field at '!' / ':' (IndexByte and
    strings.Cut), the three ways of choosing the argument with the two flags
    `auto` / `manual` and the counter `index`, `decimal` with Go's int (int64)
-   arithmetic, the keyword loop, the order of the error returns.
+   arithmetic (saturating at math.MaxInt since commit 5574fcc), the keyword loop, the order of the error returns.
 
    Every slice expression s[a:b] and index expression s[i] of the Go text is
    bounds-checked here (None -> FPanic): nothing is totalised.  The two loops
@@ -58,8 +58,8 @@ Definition go_cut (s : fbytes) (c : N) : option (fbytes * fbytes * bool) :=
 (* func decimal(s string) (x int, ok bool): None is (0, false).
      digit := s[i] - '0'            byte arithmetic: wraps modulo 256
      if digit > 9 { return 0, false }
-     x = x*10 + int(digit)          int arithmetic: wraps modulo 2^64
-     if x < 0 { return 0, false } *)
+     if x > (math.MaxInt-int(digit))/10 { x = math.MaxInt }   saturate (commit 5574fcc)
+     else { x = x*10 + int(digit) }                           int arithmetic *)
 Fixpoint decimal_loop (s : fbytes) (x : Z) : option Z :=
   match s with
   | [] => Some x
@@ -67,8 +67,9 @@ Fixpoint decimal_loop (s : fbytes) (x : Z) : option Z :=
       let digit := wrapu8 (Z.of_N c - 48) in
       if digit >? 9 then None
       else
-        let x' := wrap64 (x * 10 + digit) in
-        if x' <? 0 then None else decimal_loop t x'
+        let x' := if x >? Z.quot (max_int64 - digit) 10 then max_int64
+                  else wrap64 (x * 10 + digit) in
+        decimal_loop t x'
   end.
 Definition decimal (s : fbytes) : option Z := decimal_loop s 0.
 
